@@ -48,7 +48,7 @@ class Typer:
     # ------------------------------------------------------------------ obligations
     def ob(s, kind, verdict, detail, text='', spaces=()):
         if spaces and not any(_is_label_space(x) for x in spaces): return
-        sig = (kind, detail)
+        sig = (kind, detail, text[:90])
         if sig in s._seen_obs: return
         s._seen_obs.add(sig)
         s.obs.append(Obligation(s.context or s.entry, kind, verdict, detail, s.site, text[:90]))
@@ -132,9 +132,8 @@ class Typer:
             if not sizes and len(consts) == 1: return ('idxplus', ix, consts[0])
             if len(sizes) == 1 and sizes[0][1] == 1 and len(consts) == 1 and ix[2] is None: return ('idxplus', ('idx', ix[1], sizes[0][0][1]), consts[0])
         if len(sizes) == len(types) and all(c == 1 for _, c in sizes):
-            sp = sizes[0][0][1]
-            for t, _ in sizes[1:]: sp = ('CAT', sp, t[1])
-            return ('size', sp)
+            # a sum of sizes: the blocks are known, their ORDER is not (addition commutes) -- fixed later by the slices that fill the array
+            return ('size', ('ANY', tuple(sorted((t[1] for t, _ in sizes), key=repr))))
         return NUM
 
     def ty_atom(s, at):
@@ -691,8 +690,32 @@ class Typer:
         return unk('opq ' + str(tag))
 
     # ------------------------------------------------------------------ builds
+    def _resolve_any(s, base, recs):
+        """axes declared as a sum of sizes get their block order from the prefix / tail slices of the stores that fill them"""
+        axes = list(base[1])
+        for ai, ax in enumerate(axes):
+            if not (isinstance(ax, tuple) and ax[:1] == ('ANY',)): continue
+            blocks = list(ax[1]); first = None
+            for r in recs:
+                if not (isinstance(r, tuple) and r[:2] == ('opq', 'st')): continue
+                idx = r[4][1] if isinstance(r[4], tuple) and r[4][:1] == ('tuple',) else ()
+                if ai >= len(idx): continue
+                it = s.index_item(idx[ai])
+                if it[0] == 'slice':
+                    lo, up = it[1], it[2]
+                    if lo is None and up is not None and up[0] == 'size' and up[1] in blocks: first = up[1]
+                    if up is None and lo is not None and lo[0] == 'size' and lo[1] in blocks: first = lo[1]
+            if first is not None and len(blocks) == 2:
+                other = [b for b in blocks if b != first][0]
+                axes[ai] = ('CAT', first, other)
+            else:
+                axes[ai] = U('order of the blocks')
+        return ('arr', tuple(axes))
+
     def build(s, k):
         base = s.ty(k[2])
+        if base[0] == 'arr' and any(isinstance(a, tuple) and a[:1] == ('ANY',) for a in base[1]):
+            base = s._resolve_any(base, k[3][1] if isinstance(k[3], tuple) and k[3][:1] == ('tuple',) else ())
         if base[0] != 'arr':
             for r in k[3][1] if isinstance(k[3], tuple) and k[3][:1] == ('tuple',) else (): s.ty(r)
             return base
